@@ -106,6 +106,21 @@ class Hier:
         for i, t in enumerate(self.all):
             self.index.setdefault(id(t), i)
 
+    def late_register(self, a, c):
+        """types[a].register(types[c]) NOW (after adapt() calls may already have looked at the pair)."""
+        A, C = self.types[a], self.types[c]
+        if not hasattr(A, "register") or A in (object, type(None)):
+            return False
+        try:
+            if self.kinds[a] in "ib":
+                from traits.api import provides
+                provides(A)(C)
+            else:
+                A.register(C)
+            return True
+        except RuntimeError:
+            return False
+
     def P(self):
         # columns: universe protocols only.  The hidden classes (object, abc.ABC, HasTraits, Interface, ...)
         # occur only as MRO entries, never as a protocol; their columns would moreover depend on
@@ -646,6 +661,78 @@ def random_specific_case(rng):
         queries = ["a %d %d" % (src, tgt), "t S 1 1 %d %d" % (src, tgt)] + ["m %d %d" % (src, i) for i in range(k)]
         return make_line(hier, offers, ft, queries)
     raise RuntimeError("could not generate a specificity case")
+
+
+def random_late_case(rng):
+    """Late ABC registration: the same adapt / supports_protocol / trait queries before and after a class
+    (the source type, one of its bases, or an intermediate to_protocol) is registered with a protocol
+    (`P.register(T)`, `@provides` after the fact).  Every answer must follow the subclass relation
+    current at the call; the line carries the new issubclass table after each registration."""
+    for _ in range(80):
+        n = rng.randint(3, 6)
+        fam = rng.choice(["abc", "abc", "traits", "mixed"])
+        ts = []
+        for i in range(n):
+            if i < 2 or rng.random() < 0.4:
+                kind = {"abc": "a", "traits": "i", "mixed": rng.choice("ai")}[fam]
+            else:
+                kind = {"abc": "c", "traits": "h", "mixed": rng.choice("ch")}[fam]
+            bases = []
+            if i and rng.random() < 0.35:
+                bases = [rng.randrange(i)]
+            ts.append("%s%d:%s" % (kind, i, ",".join(map(str, bases))))
+        spec = "T=" + ";".join(ts)
+        protos = [i for i in range(n) if ts[i][0] in "ai"]
+        try:
+            hier = Hier(spec)
+        except TypeError:
+            continue
+        offers = []
+        nid = 0
+        for _ in range(rng.randint(1, 6)):
+            f = rng.choice(protos) if rng.random() < 0.75 else rng.randrange(n)
+            t = rng.randrange(n)
+            offers.append((nid, f, t, hier.key_of(f), rng.choice("nnnnfp")))
+            nid += 1
+        info = info_of(hier, offers)
+        base = []
+        for _ in range(rng.choice([2, 3, 4])):
+            s_, t_ = rng.randrange(n), rng.randrange(n)
+            r = rng.random()
+            if r < 0.55:
+                base.append("a %d %d" % (s_, t_))
+            elif r < 0.7:
+                base.append("d %d %d" % (s_, t_))
+            elif r < 0.8:
+                base.append("s %d %d" % (s_, t_))
+            else:
+                base.append("t %s %d %d %d %d" % (rng.choice("SAI"), rng.choice([1, 1, 2]), rng.choice([0, 1]), s_, t_))
+        base = list(dict.fromkeys(base))
+        if too_big(hier, offers, base):
+            continue
+        P0, M0 = hier.P(), hier.M()
+        queries = list(base)
+        ok = True
+        nreg = 0
+        for _ in range(rng.choice([1, 1, 2, 3])):
+            a, c = rng.choice(protos), rng.randrange(n)
+            if a == c:
+                continue
+            if hier.late_register(a, c):
+                nreg += 1
+            if too_big(hier, offers, base):
+                ok = False
+                break
+            queries.append("R %d %d %s" % (a, c, hier.P()))
+            queries += base
+        if not ok or not nreg:
+            continue
+        ft = {}
+        for o in offers:
+            if rng.random() < 0.12:
+                ft["%d@-" % o[0]] = "n"
+        return "A|%s|%s|%s|%s|%s|%s" % (spec, P0, M0, show_offers(offers), show_ftab(ft), ";".join(queries))
+    raise RuntimeError("could not generate a late-registration case")
 
 
 def random_history_case(rng):
